@@ -376,9 +376,9 @@ Opt/Hoist.vos Opt/Hoist.vok Opt/Hoist.required_vos: Opt/Hoist.v Gen/HoistGen.vos
 Opt/HoistProofs.vo Opt/HoistProofs.glob Opt/HoistProofs.v.beautified Opt/HoistProofs.required_vo: Opt/HoistProofs.v Gen/HoistGen.vo Opt/Hoist.vo
 Opt/HoistProofs.vio: Opt/HoistProofs.v Gen/HoistGen.vio Opt/Hoist.vio
 Opt/HoistProofs.vos Opt/HoistProofs.vok Opt/HoistProofs.required_vos: Opt/HoistProofs.v Gen/HoistGen.vos Opt/Hoist.vos
-Opt/OptCheck.vo Opt/OptCheck.glob Opt/OptCheck.v.beautified Opt/OptCheck.required_vo: Opt/OptCheck.v Gen/FoldGen.vo Opt/Fold.vo Gen/BoundsGen.vo Opt/Bounds.vo Gen/FastScanGen.vo Opt/FastScan.vo
-Opt/OptCheck.vio: Opt/OptCheck.v Gen/FoldGen.vio Opt/Fold.vio Gen/BoundsGen.vio Opt/Bounds.vio Gen/FastScanGen.vio Opt/FastScan.vio
-Opt/OptCheck.vos Opt/OptCheck.vok Opt/OptCheck.required_vos: Opt/OptCheck.v Gen/FoldGen.vos Opt/Fold.vos Gen/BoundsGen.vos Opt/Bounds.vos Gen/FastScanGen.vos Opt/FastScan.vos
+Opt/OptCheck.vo Opt/OptCheck.glob Opt/OptCheck.v.beautified Opt/OptCheck.required_vo: Opt/OptCheck.v Gen/FoldGen.vo Opt/Fold.vo Gen/BoundsGen.vo Opt/Bounds.vo Gen/FastScanGen.vo Opt/FastScan.vo Gen/HoistGen.vo Opt/Hoist.vo
+Opt/OptCheck.vio: Opt/OptCheck.v Gen/FoldGen.vio Opt/Fold.vio Gen/BoundsGen.vio Opt/Bounds.vio Gen/FastScanGen.vio Opt/FastScan.vio Gen/HoistGen.vio Opt/Hoist.vio
+Opt/OptCheck.vos Opt/OptCheck.vok Opt/OptCheck.required_vos: Opt/OptCheck.v Gen/FoldGen.vos Opt/Fold.vos Gen/BoundsGen.vos Opt/Bounds.vos Gen/FastScanGen.vos Opt/FastScan.vos Gen/HoistGen.vos Opt/Hoist.vos
 Parser/Machine.vo Parser/Machine.glob Parser/Machine.v.beautified Parser/Machine.required_vo: Parser/Machine.v 
 Parser/Machine.vio: Parser/Machine.v 
 Parser/Machine.vos Parser/Machine.vok Parser/Machine.required_vos: Parser/Machine.v 
